@@ -126,7 +126,7 @@ func vGenParams(r *vRng, n int) []vParam {
 			ps = append(ps, vParam{ID: id, Scrypt: true, Key: r.bytes(32), Cost: uint(1 + r.intn(3)), R: []int{0, 1, 2}[r.intn(3)], P: []int{0, 1, 2}[r.intn(3)]})
 		} else {
 			th := uint8(1 + r.intn(2))
-			ps = append(ps, vParam{ID: id, Time: uint32(1 + r.intn(2)), Memory: uint32(8*int(th)) * uint32(1+r.intn(2)), Threads: th, Length: []uint32{16, 20, 32, 64}[r.intn(4)]})
+			ps = append(ps, vParam{ID: id, Time: uint32(1 + r.intn(2)), Memory: uint32(8*int(th))*uint32(1+r.intn(2)) + []uint32{0, 0, 1, 3, 5, 7}[r.intn(6)], Threads: th, Length: []uint32{16, 20, 32, 64}[r.intn(4)]})
 		}
 	}
 	return ps
@@ -139,20 +139,20 @@ type vKdfEntry struct {
 }
 
 type vHist struct {
-	root    string // scratch root; base = root/base
-	base    string
-	dir     *Dir
-	params  []vParam
-	def0    uint
-	initDir string // Coq term of the initial directory
-	steps   []string
-	human   []string
-	kdfTab  map[string]string // key -> Coq entry
-	shaTab  map[string]string
-	salts   [][]byte // every salt written (for C14)
-	stats   map[string]int
-	lastSnap string
-	known    []vKnown
+	root       string // scratch root; base = root/base
+	base       string
+	dir        *Dir
+	params     []vParam
+	def0       uint
+	initDir    string // Coq term of the initial directory
+	steps      []string
+	human      []string
+	kdfTab     map[string]string // key -> Coq entry
+	shaTab     map[string]string
+	salts      [][]byte // every salt written (for C14)
+	stats      map[string]int
+	lastSnap   string
+	known      []vKnown
 	pwsWritten [][]byte
 }
 
